@@ -193,6 +193,10 @@ func main() {
 			c.Nontrivial(hx.H64(cfg.name, fmt.Sprint(names), fmt.Sprint(recs)))
 			c.Distinct("templates", hx.H64(fmt.Sprint(names)))
 		}
+		if m := s.coll.Mutations(); len(m) > 0 {
+			c.Violation(k, "delivered-message-changed-later:"+cfg.name, m[0], desc)
+			ok = false
+		}
 		if !ok {
 			// re-establish the session after any failure (a stream collector closes on error)
 			s.close()
